@@ -6,12 +6,18 @@ import Qfx.Drv.Sched
 import Qfx.Drv.SchedMon
 import Qfx.Drv.Sess
 import Qfx.Drv.SessMon
+import Qfx.Drv.Dict
+import Qfx.Drv.DictMon
+import Qfx.Drv.Valid
+import Qfx.Drv.ValidMon
 namespace Qfx.Drv
 
 def families : List (String × Family) :=
   [ ("val", valFamily), ("val-mon", valMonFamily)
   , ("sched", schedFamily), ("sched-mon", schedMonFamily)
   , ("sess", sessFamily), ("sess-mon", sessMonFamily)
+  , ("dict", dictFamily), ("dict-mon", dictMonFamily)
+  , ("valid", validFamily), ("valid-mon", validMonFamily)
   ]
 
 end Qfx.Drv
